@@ -380,8 +380,101 @@ def oneshot(job: dict, timeout: float = 300.0) -> dict:
         return {'id': job.get('id'), 'rig_error': f'no output (rc={p.returncode})'}
 
 
+def zygote_main() -> int:
+    """A process that imports what a worker imports and then NEVER decodes anything itself: for every job line
+    on stdin it forks, the child runs the job (its step 0 is the first thing decoded in that process image, as
+    in a brand-new interpreter after its imports) and exits; the result goes back on stdout, one line per job."""
+    import select
+
+    _prepare_worker()
+    out = sys.stdout
+    for line in sys.stdin:
+        line = line.strip()
+        if not line:
+            continue
+        job = json.loads(line)
+        r, w = os.pipe()
+        pid = os.fork()
+        if pid == 0:
+            code = 0
+            try:
+                os.close(r)
+                try:
+                    res = run_job(job)
+                except BaseException as e:  # noqa: BLE001
+                    import traceback
+
+                    res = {'id': job.get('id'), 'rig_error': f'{type(e).__name__}: {e}', 'tb': traceback.format_exc()[-1500:]}
+                with os.fdopen(w, 'w') as f:
+                    f.write(json.dumps(res))
+            except BaseException:  # noqa: BLE001
+                code = 1
+            os._exit(code)
+        os.close(w)
+        chunks: list[bytes] = []
+        end = time.time() + float(job.get('timeout', 300.0))
+        timed_out = False
+        while True:
+            left = end - time.time()
+            if left <= 0:
+                timed_out = True
+                break
+            ready, _, _ = select.select([r], [], [], min(left, 5.0))
+            if ready:
+                b = os.read(r, 1 << 20)
+                if not b:
+                    break
+                chunks.append(b)
+        os.close(r)
+        if timed_out:
+            try:
+                os.kill(pid, 9)
+            except OSError:
+                pass
+        os.waitpid(pid, 0)
+        text = b''.join(chunks).decode() if not timed_out else ''
+        try:
+            json.loads(text)
+        except ValueError:
+            text = json.dumps({'id': job.get('id'), 'rig_error': 'timeout' if timed_out else 'no output from the forked job'})
+        out.write(text + '\n')
+        out.flush()
+    return 0
+
+
+class Zygote:
+    """One zygote process (see zygote_main); `run(job)` is blocking, one job at a time."""
+
+    def __init__(self) -> None:
+        env = dict(os.environ)
+        env['exabgp_log_enable'] = 'false'
+        env['PYTHONPATH'] = str(REPO / 'src')
+        self.p = subprocess.Popen([sys.executable, '-S', str(Path(__file__).resolve()), '--zygote'], stdin=subprocess.PIPE, stdout=subprocess.PIPE, text=True, env=env, cwd=str(VERIF))
+
+    def run(self, job: dict) -> dict:
+        assert self.p.stdin is not None and self.p.stdout is not None
+        self.p.stdin.write(json.dumps(job) + '\n')
+        self.p.stdin.flush()
+        line = self.p.stdout.readline()
+        if not line:
+            raise RuntimeError(f'zygote died (rc={self.p.poll()})')
+        return json.loads(line)
+
+    def close(self) -> None:
+        try:
+            if self.p.stdin:
+                self.p.stdin.close()
+            self.p.wait(timeout=5)
+        except Exception:  # noqa: BLE001
+            self.p.kill()
+
+
+FORK = os.environ.get('VERIF_C19_EXEC', '') == ''  # VERIF_C19_EXEC=1: one exec'ed interpreter per job (the slow way)
+
+
 class Pool:
-    """K threads, each launching one fresh interpreter per job; results arrive in `results`."""
+    """K threads; each job runs in a process of its own that has decoded nothing before: forked from a zygote
+    that only imported (default), or a brand-new interpreter per job (VERIF_C19_EXEC=1); results arrive in `results`."""
 
     def __init__(self, k: int) -> None:
         self.q: 'queue.Queue[dict | None]' = queue.Queue()
@@ -397,12 +490,25 @@ class Pool:
             self.threads.append(t)
 
     def _serve(self) -> None:
+        zyg: Zygote | None = None
         while True:
             job = self.q.get()
             if job is None:
+                if zyg is not None:
+                    zyg.close()
                 return
             try:
-                res = oneshot(job)
+                if FORK and not job.get('exec'):
+                    if zyg is None:
+                        zyg = Zygote()
+                    try:
+                        res = zyg.run(job)
+                    except Exception:  # noqa: BLE001  (a dead zygote: this job the slow way, a new zygote for the next)
+                        zyg.close()
+                        zyg = None
+                        res = oneshot(job)
+                else:
+                    res = oneshot(job)
             except Exception as e:  # noqa: BLE001
                 res = {'id': job['id'], 'rig_error': f'{type(e).__name__}: {e}'}
             with self.done_evt:
@@ -649,4 +755,6 @@ def qa_samples() -> list[tuple[int, bytes, str]]:
 if __name__ == '__main__':
     if '--worker' in sys.argv:
         sys.exit(worker_main())
+    if '--zygote' in sys.argv:
+        sys.exit(zygote_main())
     print(__doc__)
